@@ -9,6 +9,7 @@ CONSTANTS
   BKeys = {"b1", "b2"}
   CKeys = {"c1", "c2"}
   KKeys = {"k1", "k2"}
+  EqOps <- EqOpsFull
 CONSTRAINT DepthBound
 INVARIANT InvImplRefinesIdeal
 INVARIANT InvLazyShape
